@@ -255,6 +255,17 @@ def shapes():
         T("Hidden", "P1", ignore=ALLD), T("Plain", "P1"),
         T("Shared", "P1", mark={"is_variant": "", "unwrap": "ref", "try_unwrap": "ref_mut", "try_into": "ref"}),
         T("PlainTwin", "P1")])
+    # TryInto only: same-typed variants naming different kinds at the variant level, no enum-level attribute.  The first attributed
+    # variant names reference kinds (see Gen.gen_try_into for what is and is not constrained).
+    def K(sel):
+        return {"try_into": sel}
+    S["ti_varsel"] = Shape("ti_varsel", [
+        T("ByRef", "P1", mark=K("ref, ref_mut")), T("Owned", "P1", mark=K("owned")), T("OwnedRef", "P1", mark=K("owned, ref")),
+        T("Other", "P2", mark=K("owned, ref")), T("MutOnly", "P1", mark=K("ref_mut")), T("Pair", "P1", "P1", mark=K("ref")),
+        T("PairAll", "P1", "P1", mark=K("owned, ref, ref_mut"))])
+    S["ti_varsel2"] = Shape("ti_varsel2", [
+        T("OwnedMut", "P2", mark=K("owned, ref_mut")), T("ByRef", "P2", mark=K("ref")), U("Nil", mark=K("owned")),
+        N("NamedRef", F("P2", name="x"), mark=K("ref, ref_mut")), T("OwnedOnly", "P2", mark=K("owned"))])
     # thorough-only shapes
     S["single"] = Shape("single", [T("Value", "P1")])
     S["triples"] = Shape("triples", [
@@ -521,14 +532,27 @@ impl kani::Arbitrary for Ty {
                 groups.append((k, [v.fields[i].inst for i in kept], [(v, kept)]))
         return groups
 
+    @staticmethod
+    def ti_sel(v):
+        """forms a variant-level `#[try_into(owned, ref, ref_mut)]` names, or None (no variant-level selection: the enum-level one)"""
+        if "try_into" not in v.mark or not v.mark["try_into"]:
+            return None
+        return {{"owned": "owned", "ref": "ref", "ref_mut": "mut"}[x.strip()] for x in v.mark["try_into"].split(",")}
+
     def gen_try_into(self):
         groups = self.ti_groups()
         names = {"owned": "", "ref": "_ref", "mut": "_mut"}
-        for k, (key, tys, members) in enumerate(groups):
+        for k, (key, tys, all_members) in enumerate(groups):
             n = len(tys)
             title = "(%s)" % ", ".join(key)
+            # Variant-level kind selection (shape ti_varsel): a variant takes part in the impls of the kinds it names.  For ref / ref_mut
+            # that is all there is (nothing else switches them on without an enum-level attribute).  Whether a variant that names only
+            # reference kinds ALSO converts by value is NOT settled (property: "exactly the variants whose field types equal the
+            # target"; the macro: depends on which variant is attributed first): such (variant, owned) pairs are left unconstrained.
+            mem = {f: [(v, kept) for v, kept in all_members if self.ti_sel(v) is None or f in self.ti_sel(v)] for f in ALL3}
+            free_owned = [(v, kept) for v, kept in all_members if self.ti_sel(v) is not None and "owned" not in self.ti_sel(v)]
+            members = mem["owned"]
             member_names = ", ".join(v.name for v, _ in members)
-            notmember = conj("!matches!(orig, %s)" % v.anypat() for v, _ in members)
 
             def mpat(v, kept, pre):
                 bs = ["_"] * len(v.fields)
@@ -540,18 +564,20 @@ impl kani::Arbitrary for Ty {
             for v, kept in members:
                 okpat = "Ok(())" if n == 0 else "Ok(x) if " + conj("%s == *f%d" % (acc("x", i, n) if n > 1 else "*x", i) for i in range(n))
                 arms.append("        %s => matches!(r, %s)," % (mpat(v, kept, "f"), okpat))
+            for v, kept in free_owned:
+                arms.append("        %s => true,   // names only reference kinds: by-value conversion not settled, unconstrained" % v.anypat())
             self.posts.append("/// target %s: exactly %s convert\npub fn post_try_into_%d(orig: &Ty, r: &Result<%s, TryIntoError<Ty>>) -> bool {\n"
                               "    match orig {\n%s\n        _ => matches!(r, Err(e) if e.input == *orig),\n    }\n}" % (
                                   title, member_names, k, ret_ty(tys), "\n".join(arms)))
             arms = []
-            for v, kept in members:
+            for v, kept in mem["ref"]:
                 okpat = "Ok(())" if n == 0 else "Ok(x) if " + conj("ptr::eq(%s, f%d)" % (acc("x", i, n) if n > 1 else "*x", i) for i in range(n))
                 arms.append("        %s => matches!(r, %s)," % (mpat(v, kept, "f"), okpat))
             self.posts.append("pub fn post_try_into_%d_ref(v: &Ty, r: &Result<%s, TryIntoError<&Ty>>) -> bool {\n"
                               "    match v {\n%s\n        _ => matches!(r, Err(e) if ptr::eq(e.input, v)),\n    }\n}" % (
                                   k, ret_ty(tys, "&"), "\n".join(arms)))
             arms = []
-            for v, kept in members:
+            for v, kept in mem["mut"]:
                 # ignored fields are bound on both sides (o<i> before, a<i> after): they must be unchanged
                 ign = [i for i in range(len(v.fields)) if i not in kept]
                 ob, ab = ["_"] * len(v.fields), ["_"] * len(v.fields)
@@ -565,10 +591,15 @@ impl kani::Arbitrary for Ty {
             self.posts.append("pub fn post_try_into_%d_mut_ok(orig: &Ty, after: &Ty, p: &%s, n: &%s) -> bool {\n"
                               "    match (orig, after) {\n%s\n        _ => false,\n    }\n}" % (
                                   k, ret_ty(tys, "*const "), ret_ty(tys), "\n".join(arms)))
+            notmember = conj("!matches!(orig, %s)" % v.anypat() for v, _ in mem["mut"])
             self.posts.append("pub fn post_try_into_%d_mut_err(orig: &Ty, after: &Ty, pe: *const Ty) -> bool {\n"
                               "    %s && ptr::eq(pe, after) && *after == *orig\n}" % (k, notmember))
-            has_err = len(members) < len(self.vs)
             for form in self.forms:
+                members = mem[form]
+                if not members:
+                    continue            # no variant with this field-type tuple names this kind: no such impl
+                member_names = ", ".join(v.name for v, _ in members)
+                has_err = len(members) + (len(free_owned) if form == "owned" else 0) < len(self.vs)
                 sfx = names[form]
                 ref = {"owned": "", "ref": "&", "mut": "&mut "}[form]
                 call = "<%s as TryFrom<%sTy>>::try_from(%sv)" % (ret_ty(tys, ref), ref, ref)
@@ -660,6 +691,7 @@ SEL = {
     "mutonly": (("owned", "mut"), "ref_mut"),
 }
 SEL_TI = {
+    "varsel": (ALL3, None),                            # no enum-level attribute: the variants name their kinds themselves
     "owned": (("owned",), None),                       # default is #[try_into(owned)]
     "all": (ALL3, "owned, ref, ref_mut"),
     "ref": (("ref",), "ref"),
@@ -727,6 +759,9 @@ def programs(tier):
     add("unw", "ign_then_mark", ("unwrap",), "owned")
     add("tun", "ign_then_mark", ("try_unwrap",), "owned")
     add("tin", "ign_then_mark", ("try_into",), "owned")
+    # variant-level kind selection of TryInto: every (variant, ref) and (variant, ref_mut) pair, (variant, owned) where it is settled
+    add("tin", "ti_varsel", ("try_into",), "varsel")
+    add("tin", "ti_varsel2", ("try_into",), "varsel")
     if tier == "thorough":
         extra = ["single", "triples", "empties", "names2", "lifetimes"]
         for s in extra + ["generic_ti"]:
